@@ -1,1 +1,309 @@
-// placeholder
+//! K-WPRIM: the writer primitives on the shipped `EndianVec` produce exactly the bytes of the semantic field the Verus
+//! write-side contract layer (vx/batches/wcore.py) logs for them, and nothing else. Discharges the R-REQUIRED contracts
+//! of `Writer::{write_u8..write_u128, write_u8_at..write_u128_at, write_uleb128, write_sleb128}` and the contracts of the
+//! required methods `write`, `write_at`, `len` on EndianVec; re-checks `write_udata/write_sdata/write_udata_at/
+//! write_initial_length(+_at)` end to end (write, then read back with the real reader) for EVERY size argument 0..=255,
+//! every value, both byte orders. All complete: no loop depends on the input beyond the field width (<= 16 bytes /
+//! 10 LEB128 groups); values, sizes, offsets and byte order fully symbolic.
+use crate::refs::*;
+use gimli::write::{EndianVec, Error, Writer};
+use gimli::{EndianSlice, Endianity, Format, Reader, RunTimeEndian};
+
+fn any_endian() -> RunTimeEndian {
+    if kani::any() { RunTimeEndian::Big } else { RunTimeEndian::Little }
+}
+
+/// closed-form sizes: mirrors of `uleb_size` / `sleb_size` in vx/specs/wcore.rs (n groups hold 7n bits)
+fn uleb_size_ref(v: u64) -> usize {
+    let mut n = 1;
+    while n < 10 && (v >> (7 * n)) != 0 {
+        n += 1;
+    }
+    n
+}
+fn sleb_size_ref(v: i64) -> usize {
+    let mut n = 1;
+    // n groups hold -2^(7n-1) <= v < 2^(7n-1)
+    while n < 10 && !((v >> (7 * n - 1)) == 0 || (v >> (7 * n - 1)) == -1) {
+        n += 1;
+    }
+    n
+}
+
+const MARK: u8 = 0xa5;
+
+/// a writer that already holds one byte, so that "appends at len-before" is visible
+fn writer1(e: RunTimeEndian) -> EndianVec<RunTimeEndian> {
+    let mut w = EndianVec::new(e);
+    w.write(&[MARK]).unwrap();
+    w
+}
+
+macro_rules! fixed {
+    ($name:ident, $meth:ident, $ty:ty, $n:expr) => {
+        /// write_uN appends exactly N bytes holding the value in the writer's byte order
+        #[kani::proof]
+        #[kani::unwind(20)]
+        fn $name() {
+            let e = any_endian();
+            let val: $ty = kani::any();
+            let mut w = writer1(e);
+            assert!(w.$meth(val) == Ok(()));
+            assert!(w.len() == 1 + $n);
+            assert!(w.slice()[0] == MARK);
+            assert!(uint_of(&w.slice()[1..], e.is_big_endian()) == val as u128);
+        }
+    };
+}
+fixed!(k_wprim_fixed_u8, write_u8, u8, 1);
+fixed!(k_wprim_fixed_u16, write_u16, u16, 2);
+fixed!(k_wprim_fixed_u32, write_u32, u32, 4);
+fixed!(k_wprim_fixed_u64, write_u64, u64, 8);
+fixed!(k_wprim_fixed_u128, write_u128, u128, 16);
+
+macro_rules! fixed_at {
+    ($name:ident, $meth:ident, $ty:ty, $n:expr) => {
+        /// write_uN_at: Ok exactly when offset + N <= len; overwrites exactly those N bytes; Err leaves everything alone
+        #[kani::proof]
+        #[kani::unwind(22)]
+        fn $name() {
+            let e = any_endian();
+            let val: $ty = kani::any();
+            let init: [u8; $n + 2] = kani::any();
+            let offset: usize = kani::any();
+            let mut w = EndianVec::new(e);
+            w.write(&init).unwrap();
+            let res = w.$meth(offset, val);
+            assert!(w.len() == $n + 2);
+            if offset <= 2 {
+                assert!(res == Ok(()));
+                assert!(uint_of(&w.slice()[offset..offset + $n], e.is_big_endian()) == val as u128);
+                let mut i = 0;
+                while i < $n + 2 {
+                    if i < offset || i >= offset + $n {
+                        assert!(w.slice()[i] == init[i]);
+                    }
+                    i += 1;
+                }
+            } else {
+                assert!(res.is_err());
+                assert!(w.slice() == &init[..]);
+            }
+        }
+    };
+}
+fixed_at!(k_wprim_patch_u8, write_u8_at, u8, 1);
+fixed_at!(k_wprim_patch_u16, write_u16_at, u16, 2);
+fixed_at!(k_wprim_patch_u32, write_u32_at, u32, 4);
+fixed_at!(k_wprim_patch_u64, write_u64_at, u64, 8);
+fixed_at!(k_wprim_patch_u128, write_u128_at, u128, 16);
+
+/// `write` appends; `write_at` is Ok exactly when offset + bytes.len() <= len (no wrap-around) and then overwrites in place
+#[kani::proof]
+#[kani::unwind(8)]
+fn k_wprim_write_and_write_at() {
+    let init: [u8; 4] = kani::any();
+    let patch: [u8; 3] = kani::any();
+    let n: usize = kani::any();
+    kani::assume(n <= 3);
+    let offset: usize = kani::any();
+    let mut w = writer1(any_endian());
+    assert!(w.write(&init) == Ok(()));
+    assert!(w.len() == 5 && w.slice()[0] == MARK && w.slice()[1..] == init[..]);
+    let res = w.write_at(offset, &patch[..n]);
+    assert!(w.len() == 5);
+    if offset <= 5 && n <= 5 - offset {
+        assert!(res == Ok(()));
+        assert!(w.slice()[offset..offset + n] == patch[..n]);
+    } else {
+        assert!(res.is_err());
+        assert!(w.slice()[1..] == init[..]);
+    }
+}
+
+/// write_udata for EVERY size: Ok exactly when size is 1/2/4/8 and the value fits; then `size` bytes are appended and
+/// read back (real reader) as the value; ValueTooLarge exactly when it does not fit; UnsupportedWordSize(size) otherwise
+#[kani::proof]
+#[kani::unwind(12)]
+fn k_wprim_udata_all_sizes() {
+    let e = any_endian();
+    let val: u64 = kani::any();
+    let size: u8 = kani::any();
+    let mut w = writer1(e);
+    let res = w.write_udata(val, size);
+    let valid = size == 1 || size == 2 || size == 4 || size == 8;
+    let fits = size >= 8 || val < (1u64 << (8 * (size as u32 % 8)));
+    if !valid {
+        assert!(res == Err(Error::UnsupportedWordSize(size)));
+        assert!(w.len() == 1);
+    } else if !fits {
+        assert!(res == Err(Error::ValueTooLarge));
+        assert!(w.len() == 1);
+    } else {
+        assert!(res == Ok(()));
+        assert!(w.len() == 1 + size as usize);
+        assert!(w.slice()[0] == MARK);
+        let mut r = EndianSlice::new(&w.slice()[1..], e);
+        assert!(r.read_uint(size as usize) == Ok(val));
+        assert!(r.is_empty());
+    }
+}
+
+/// write_sdata for EVERY size: as write_udata with the signed range; the signed reads return the value
+#[kani::proof]
+#[kani::unwind(12)]
+fn k_wprim_sdata_all_sizes() {
+    let e = any_endian();
+    let val: i64 = kani::any();
+    let size: u8 = kani::any();
+    let mut w = writer1(e);
+    let res = w.write_sdata(val, size);
+    let valid = size == 1 || size == 2 || size == 4 || size == 8;
+    let fits = match size {
+        1 => -0x80 <= val && val < 0x80,
+        2 => -0x8000 <= val && val < 0x8000,
+        4 => -0x8000_0000 <= val && val < 0x8000_0000,
+        _ => true,
+    };
+    if !valid {
+        assert!(res == Err(Error::UnsupportedWordSize(size)));
+        assert!(w.len() == 1);
+    } else if !fits {
+        assert!(res == Err(Error::ValueTooLarge));
+        assert!(w.len() == 1);
+    } else {
+        assert!(res == Ok(()));
+        assert!(w.len() == 1 + size as usize);
+        let mut r = EndianSlice::new(&w.slice()[1..], e);
+        let back = match size {
+            1 => r.read_i8().map(i64::from),
+            2 => r.read_i16().map(i64::from),
+            4 => r.read_i32().map(i64::from),
+            _ => r.read_i64(),
+        };
+        assert!(back == Ok(val));
+        assert!(r.is_empty());
+        // the bytes are the two's complement value (the field `ws(val, size)` of the contract layer)
+        let tc = if size == 8 { val as u64 as u128 } else { (val as u64 as u128) & ((1u128 << (8 * size as u32)) - 1) };
+        assert!(uint_of(&w.slice()[1..], e.is_big_endian()) == tc);
+    }
+}
+
+/// write_udata_at for EVERY size and offset: fit / size errors as write_udata; Ok exactly when additionally
+/// offset + size <= len; patches in place, reads back as the value
+#[kani::proof]
+#[kani::unwind(12)]
+fn k_wprim_udata_at_all_sizes() {
+    let e = any_endian();
+    let val: u64 = kani::any();
+    let size: u8 = kani::any();
+    let offset: usize = kani::any();
+    let init: [u8; 9] = kani::any();
+    let mut w = EndianVec::new(e);
+    w.write(&init).unwrap();
+    let res = w.write_udata_at(offset, val, size);
+    let valid = size == 1 || size == 2 || size == 4 || size == 8;
+    let fits = size >= 8 || val < (1u64 << (8 * (size as u32 % 8)));
+    assert!(w.len() == 9);
+    if !valid {
+        assert!(res == Err(Error::UnsupportedWordSize(size)));
+        assert!(w.slice() == &init[..]);
+    } else if !fits {
+        assert!(res == Err(Error::ValueTooLarge));
+        assert!(w.slice() == &init[..]);
+    } else if offset <= 9 && size as usize <= 9 - offset {
+        assert!(res == Ok(()));
+        let mut r = EndianSlice::new(&w.slice()[offset..], e);
+        assert!(r.read_uint(size as usize) == Ok(val));
+        let mut i = 0;
+        while i < 9 {
+            if i < offset || i >= offset + size as usize {
+                assert!(w.slice()[i] == init[i]);
+            }
+            i += 1;
+        }
+    } else {
+        assert!(res.is_err());
+        assert!(w.slice() == &init[..]);
+    }
+}
+
+/// write_uleb128 appends uleb_size(val) bytes that the real reader decodes to val (all u64)
+#[kani::proof]
+#[kani::unwind(12)]
+fn k_wprim_uleb128() {
+    let val: u64 = kani::any();
+    let mut w = writer1(any_endian());
+    assert!(w.write_uleb128(val) == Ok(()));
+    assert!(w.slice()[0] == MARK);
+    assert!(w.len() == 1 + uleb_size_ref(val));
+    assert!(gimli::leb128::write::uleb128_size(val) == uleb_size_ref(val));
+    let mut r = EndianSlice::new(&w.slice()[1..], w.endian());
+    assert!(r.read_uleb128() == Ok(val));
+    assert!(r.is_empty());
+}
+
+/// write_sleb128 appends sleb_size(val) bytes that the real reader decodes to val (all i64)
+#[kani::proof]
+#[kani::unwind(12)]
+fn k_wprim_sleb128() {
+    let val: i64 = kani::any();
+    let mut w = writer1(any_endian());
+    assert!(w.write_sleb128(val) == Ok(()));
+    assert!(w.slice()[0] == MARK);
+    assert!(w.len() == 1 + sleb_size_ref(val));
+    assert!(gimli::leb128::write::sleb128_size(val) == sleb_size_ref(val));
+    let mut r = EndianSlice::new(&w.slice()[1..], w.endian());
+    assert!(r.read_sleb128() == Ok(val));
+    assert!(r.is_empty());
+}
+
+/// write_initial_length(format) + write_initial_length_at(offset, length, format), every length, one harness per format:
+/// 4 / 12 bytes are appended (0xffff_ffff escape first for DWARF64), the returned offset addresses the length word,
+/// the patch is Ok exactly when the length fits the word, and the real reader gets (length, format) back for every
+/// length that DWARF allows in that format (32-bit lengths 0xffff_fff0.. are reserved: finding F-wcore-1, not asserted here)
+fn initial_length(format: Format, n: usize, body: usize) {
+    let e = any_endian();
+    let length: u64 = kani::any();
+    let mut w = writer1(e);
+    let off = w.write_initial_length(format).unwrap();
+    assert!(w.len() == 1 + n);
+    assert!(format.initial_length_size() as usize == n);
+    assert!(body + format.word_size() as usize == 1 + n);
+    // a zero length word, after the escape for DWARF64
+    if n == 12 {
+        assert!(uint_of(&w.slice()[1..5], e.is_big_endian()) == 0xffff_ffff);
+    }
+    assert!(uint_of(&w.slice()[body..], e.is_big_endian()) == 0);
+    let res = w.write_initial_length_at(off, length, format);
+    assert!(w.len() == 1 + n);
+    assert!(w.slice()[0] == MARK);
+    if n == 4 && length > 0xffff_ffff {
+        assert!(res == Err(Error::ValueTooLarge));
+        assert!(uint_of(&w.slice()[body..], e.is_big_endian()) == 0);
+    } else {
+        assert!(res == Ok(()));
+        // the offset returned is the offset of the length word
+        assert!(uint_of(&w.slice()[body..], e.is_big_endian()) == length as u128);
+        if n == 12 {
+            assert!(uint_of(&w.slice()[1..5], e.is_big_endian()) == 0xffff_ffff);
+        }
+        if n == 12 || length < 0xffff_fff0 {
+            let mut r = EndianSlice::new(&w.slice()[1..], e);
+            assert!(r.read_initial_length() == Ok((length as usize, format)));
+            assert!(r.is_empty());
+        }
+    }
+}
+
+#[kani::proof]
+#[kani::unwind(16)]
+fn k_wprim_initial_length_32() {
+    initial_length(Format::Dwarf32, 4, 1);
+}
+
+#[kani::proof]
+#[kani::unwind(16)]
+fn k_wprim_initial_length_64() {
+    initial_length(Format::Dwarf64, 12, 5);
+}
